@@ -10,12 +10,12 @@ in : `knn method=brute|vptree|covertree k=3 cb=plain|kernel metric=L1|Linf|matri
       [vs=..] [ids=<lists returned by the implementation>] [raw=<cover-tree candidate sets>] [brief=1]
       [tree=<preorder dump of the real cover tree> gs=<d/get_scale(d),..> ds=<s/dist_of_scale(s),..>]`
 out: `model=<obs;..> alt=<i,..> [impl=<obs;..> oracle=ok|bad@i:reason corr=ok|diff@i] [wrap=ok|diff@i|oob@i cq=ok|bad@i]
-      [wf=.. mq=.. mqorder=.. nodes=.. leafscale=..] [bt=ok|diff@r:..|err bh=ok|neg|top bls=ok|diff]`
+      [wf=.. mq=.. mqorder=.. nodes=.. leafscale=..] [bt=ok|diff@r:..|err bh=ok|neg bls=ok|diff]`
 
 `bt` : the tree the Lean model of `batch_create` (`CoverBuild.batchCreate`, run over `Rat` with the scale functions given
 by the `gs` / `ds` tables of the values the real code computes) builds, compared record by record (point, scale, number
-of children, max_dist, parent_dist, preorder = children order) with the dumped real tree; `bh` : the hypotheses of
-`batchCreate_wf` on these scale values (`dist_of_scale >= 0`, largest top distance covered); `bls` : `leaf_scale`.
+of children, max_dist, parent_dist, preorder = children order) with the dumped real tree; `bh` : the hypothesis of
+`batchCreate_wf` on these scale values (`dist_of_scale >= 0`); `bls` : `leaf_scale`.
 
 `obs` of one neighbour list `l` of sample `i` = `len:nodup:selfFree:inRange:sorted distances` — the level at which
 property C02 determines the result.  The oracle is `Knn.isExactKnn` (the Bool form of the `IsExactKnn` the theorems
@@ -131,18 +131,23 @@ def parseDs (s : String) : Option (List (Int × Rat)) :=
     let (a, b) ← parsePair t
     pure (← a.toInt?, ← parseRat b))
 
-/-- the scale functions as the tables of the values the real code computes; an argument outside the tables gives a
-    value no real run produces (the model's tree then differs from the real one: reported as `bt=diff`) -/
+/-- the scale functions as the tables of the values the real code computes.  `get_scale` is tabulated for every positive
+    distance between two samples (the only arguments `batch_insert` passes; `batch_create` passes 0 when all samples
+    coincide: the real value `(int)ceil(-inf)` is then used only in `dist_of_scale(·) < 0`, false whatever it is — here a
+    scale below the table).  `dist_of_scale` is tabulated from three below the smallest to one above the largest of
+    these scales; below the table it is smaller than every positive distance that occurs, which is all the code uses
+    it for (`d <= fmax`, `fmax < max_dist`): 0 stands for it; an argument above the table gives a value no real run
+    produces (the model's tree then differs from the real one: reported as `bt=diff`) -/
 def gsOf (tab : Array (Rat × Int)) (d : Rat) : Int :=
   match tab.find? (fun e => e.1 == d) with
   | some e => e.2
-  | none => 1000000007
+  | none => -1000000007
 
 def dsOf (tab : Array (Int × Rat)) (s : Int) : Rat :=
   match tab[0]? with
-  | none => -1
+  | none => 0
   | some (s0, _) =>
-    if s < s0 then -1 else
+    if s < s0 then 0 else
       match tab[(s - s0).toNat]? with
       | some (s', v) => if s' = s then v else -1
       | none => -1
@@ -161,8 +166,7 @@ def buildReport (sp : Space) (recs : List Rec) (leafScale : Nat) (gsS dsS : Stri
     let dsA := ds.toArray
     let δ : Nat → Nat → Rat := fun a b => (sp.dist a b : Rat)
     let pts := List.range sp.N
-    let bh := if !(ds.all fun e => decide (0 ≤ e.2)) then "neg"
-      else if !(CoverBuild.topCovered δ (gsOf gsA) (dsOf dsA) pts) then "top" else "ok"
+    let bh := if !(ds.all fun e => decide (0 ≤ e.2)) then "neg" else "ok"
     match CoverBuild.batchCreate δ (gsOf gsA) (dsOf dsA) 1000000 pts with
     | none => s!"bt=err bh={bh}"
     | some (t, ls) =>
